@@ -45,4 +45,13 @@ CHECKS['C02'] = dict(
     note='Virtual children at the subprocess.call seam stand in for OS processes; INTERNAL_ERROR is provoked by a stub '
          'instruction added via the public MainProgram constructor; where the manual is silent (SKIP + validation defect) both '
          'readings are accepted.')
+CHECKS['C03'] = dict(
+    level='exploration',
+    technique='exhaustive enumeration of base case x insertion point x defect class x command through the real CLI; effect log (virtual process seam + sandbox root + home snapshot) must be empty',
+    text='Every insertion point (each phase, each index, incl. after the last line of [cleanup]) of every defect class of the statement '
+         'into effectful base cases is run under run/--keep/--act/symbol/symbol NAME/symbol NAME --ref; required: exit 65 with the '
+         'documented identifier, no process started, no sandbox directory created, home tree, cwd and environ unchanged. The defect-free '
+         'base cases must show all their effects, so the effect log is not vacuous.',
+    note='All processes are virtual children at the single subprocess.call seam (an effect outside the sandbox needs a process); only '
+         'defects the manual places before execution are used.')
 NOT_APPLICABLE = {}
